@@ -15,17 +15,17 @@ import (
 )
 
 type Solver struct {
-	cmd     *exec.Cmd
-	in      io.WriteCloser
-	out     *bufio.Reader
-	defs    *defTable
-	stack   []Decision // decisions whose scopes are currently pushed
-	shared  int        // levels retained from the previous run
-	cur     int        // levels entered by the current run
+	cmd      *exec.Cmd
+	in       io.WriteCloser
+	out      *bufio.Reader
+	defs     *defTable
+	stack    []Decision // decisions whose scopes are currently pushed
+	shared   int        // levels retained from the previous run
+	cur      int        // levels entered by the current run
 	baseSent bool
-	pending strings.Builder
-	kind    string // "z3", "z3-new", "cvc5"
-	timeout int    // ms
+	pending  strings.Builder
+	kind     string // "z3", "z3-new", "cvc5"
+	timeout  int    // ms
 
 	nSat, nUnsat, nUnknown, nErr int
 	solveTime                    time.Duration
